@@ -8,6 +8,8 @@ sid = sys.argv[1]
 d = os.path.join(V, "seeded", sid)
 meta = json.load(open(os.path.join(d, "meta.json")))
 checks = sys.argv[2:] or [meta["property"]]
+if checks == ["all"]:
+    checks = ["C%02d" % i for i in range(1, 19)]
 tier = os.environ.get("TRIAL_TIER", "quick")
 st = subprocess.run(["git", "-C", "/repo", "status", "--porcelain"], capture_output=True, text=True).stdout.strip()
 if st:
